@@ -3,7 +3,8 @@
 # demo fails with it and passes without it
 d=$1; wt=$2
 cd $wt && git checkout -q -- . && rm -f tests/seeded_demo.rs
-feat=$(python3 -c "import json;m=json.load(open('$d/meta.json'));f=m.get('features','default');print('' if 'default' in f.lower() and ',' not in f else '--all-features')")
+feat=$(python3 -c "import json;m=json.load(open('$d/meta.json'));f=m.get('features','').strip();print(f if f.startswith('--') else ('' if ('default' in f.lower() or f=='') else '--all-features'))")
+echo "-- demo flags: [$feat]"
 cp $d/seeded_demo.rs tests/seeded_demo.rs
 echo "-- demo WITHOUT patch:"; CARGO_NET_OFFLINE=true cargo test --offline $feat --test seeded_demo 2>&1 | grep -E "^test result|error(\[|:)" | head -3
 git apply $d/patch.diff || { echo "PATCH DOES NOT APPLY"; exit 2; }
